@@ -472,7 +472,7 @@ func propMWU(a *Analysis, r *Registry, which string) {
 			as := exactAssume(false, X.AssumeEq(env.Vars["alt"].RF, env.MustParse(al.val)),
 				X.AssumeCond(env.MustParse(sigma+"==0"), false))
 			fc := X.Under(fn, as...)
-			b.Eq(rB, construct, b.pos(fn), fc.Sub(fc.LitField("MannWhitneyUTestResult", "P")), env, specs[al.name])
+			b.EqUnder(rB, construct, b.pos(fn), fc, fc.LitField("MannWhitneyUTestResult", "P"), env, specs[al.name])
 		})
 	}
 	b.guard("C-exhaustive", name+"/switch(alt)/approx", func() {
